@@ -15,6 +15,7 @@ func init() {
 		Explain: "Decides whole-string matching of the filtered member listing structurally: every format constant that wraps a user pattern before regexp.Compile in the agent's member filter is analysed with regexp/syntax — with an alternation substituted for the verb, the parse must be begin-text · (pattern) · end-text, i.e. the anchors bind the whole pattern for every operator; the compiled expressions are matched against the member's tag value for the requested tag (missing tag ⇒ empty string), its status string and its name; a member is appended only behind every requested test; a compile error returns an error and a nil list before anything is matched.",
 		Run:     runC26,
 		Mutants: []Mutant{
+			{Name: "status-pattern-lowercased", File: "cmd/serf/command/agent/ipc.go", Func: "func (i *AgentIPC) handleMembers(", Old: "i.filterMembers(raw, req.Tags, req.Status, req.Name)", New: "i.filterMembers(raw, req.Tags, strings.ToLower(req.Status), req.Name)", Expect: "R3"},
 			{Name: "anchors-bind-loosely", File: "cmd/serf/command/agent/ipc.go", Func: "func (i *AgentIPC) filterMembers(", Old: "statusRe, err := regexp.Compile(fmt.Sprintf(\"^(?:%s)$\", status))", New: "statusRe, err := regexp.Compile(fmt.Sprintf(\"^%s$\", status))", Expect: "R1"},
 			{Name: "unanchored-name", File: "cmd/serf/command/agent/ipc.go", Func: "func (i *AgentIPC) filterMembers(", Old: "nameRe, err := regexp.Compile(fmt.Sprintf(\"^(?:%s)$\", name))", New: "nameRe, err := regexp.Compile(fmt.Sprintf(\"(?:%s)\", name))", Expect: "R1"},
 			{Name: "name-filter-on-status", File: "cmd/serf/command/agent/ipc.go", Func: "func (i *AgentIPC) filterMembers(", Old: "nameRe.MatchString(m.Name)", New: "nameRe.MatchString(m.Status.String())", Expect: "R2"},
@@ -48,6 +49,22 @@ func wholeStringAnchored(f string) (bool, string) {
 }
 
 func runC26(c *an.Ctx) {
+	c.Rule("R3 the members handler hands the request's tag, status and name patterns to the filter unchanged (a pattern is not text to normalise)")
+	if hm := am(c, "R3", "AgentIPC", "handleMembers"); hm != nil {
+		calls := an.CallsTo(hm, "(*AgentIPC).filterMembers")
+		c.Floor("R3", "filter calls in the members handler", len(calls), 1)
+		for _, call := range calls {
+			a := an.CallOf(call).Args
+			want := []string{".Tags", ".Status", ".Name"}
+			for k, suf := range want {
+				p := ""
+				if 2+k < len(a) {
+					p = an.Path(a[2+k])
+				}
+				c.Add(strings.HasPrefix(p, "local:") && strings.HasSuffix(p, suf) && strings.Count(p, "(") == 0, "R3", "handleMembers:pattern-unchanged:"+strings.TrimPrefix(suf, "."), call, "the "+strings.TrimPrefix(suf, ".")+" pattern reaches the filter exactly as decoded from the request (got "+short(p)+")", "argument provenance")
+			}
+		}
+	}
 	c.Rule("R1 anchoring: every format wrapping a user pattern parses (regexp/syntax, alternation probe) as begin-text · pattern · end-text")
 	c.Rule("R2 matched strings: m.Tags[tag] / m.Status.String() / m.Name against the expression compiled from the corresponding pattern; a member is appended only behind all requested tests")
 	c.Rule("R3 a compile error returns (nil, error) before any matching")
